@@ -294,18 +294,34 @@ CHECKS['C05'] = {
     'technique': 'Hypothesis-generated histories on a cluster simulator, per-request strategy oracle + bounded-liveness counters',
 }
 
+CHECKS['C06'] = {
+    'engine': 'E1-clustersim',
+    'category': 'exploration',
+    'text': ('Generated cluster episodes: applications placed by the automatic distribution with per-program running failure '
+             'strategies, then one to three disturbances at generated instants (crash of an instance hosting running '
+             'children, of the Master, unexpected exit of a running child). Every start / stop request must come from an '
+             'instance that holds itself as Master; for every application hit by exactly one disturbance (no other loss '
+             'around, no re-distribution afterwards) the effective action is computed by the harness from the generated '
+             'rules and the true placement before the disturbance (precedence, promotion, application-level strategies '
+             'only for a child crash) and compared after a quiet suffix with the requests emitted and the true final '
+             'placement. The handler-only state machine of the design (part a) is not built.'),
+    'design_ref': 'DESIGN.md 5/C06',
+    'note': CLUSTER_NOTE,
+    'technique': 'Hypothesis-generated fault histories on a cluster simulator, end-state and request oracle from a '
+                 'harness-side reference of the strategy semantics',
+}
+
 HOOK_COMMITS = []
 
 ENGINES = [
     {'name': 'E1-clustersim', 'path': 'clustersim/', 'kind_free_text':
         'deterministic cluster simulator: N real Supvisors instances in one process on a fake OS / network / clock; '
         'Hypothesis generates configuration and history; per-property monitors',
-     'serves_properties': ['C01', 'C02', 'C03', 'C04', 'C05', 'C07', 'C08', 'C09', 'C10', 'C12', 'C13', 'C14', 'C16', 'C17', 'C19']},
+     'serves_properties': ['C01', 'C02', 'C03', 'C04', 'C05', 'C06', 'C07', 'C08', 'C09', 'C10', 'C12', 'C13', 'C14', 'C16', 'C17', 'C19']},
     {'name': 'E3-solo', 'path': 'clustersim/solo.py', 'kind_free_text':
         'one real instance with puppet peers / pure component harnesses driven by Hypothesis',
      'serves_properties': ['C11', 'C15', 'C18', 'C20']},
 ]
 
 _PENDING = 'check not built yet in this round (the technique applies; see DESIGN.md section 5)'
-NOT_APPLICABLE = {pid: _PENDING for pid in
-                  ['C06']}
+NOT_APPLICABLE = {}
